@@ -51,6 +51,21 @@ theorem generated_guards_shape :
     decide
   exact ⟨by decide, by decide, fun attr h => ⟨_, hall attr h⟩⟩
 
+/-- the reconstruction parts follow the skip list too (guards regenerated from merge_keep_ids): observations are merged exactly
+  when neither Points3d nor Observations is skipped, 3-D points exactly when Points3d is not -/
+theorem reconstruction_parts_follow_the_skip_list (skip : List String) :
+    guardHolds skip (guardsOf "observations") = (!skip.contains "Points3d" && !skip.contains "Observations") ∧
+    guardHolds skip (guardsOf "points3d") = !skip.contains "Points3d" := by
+  have e1 : guardsOf "observations" = [[("not-skipped", ["Points3d", "Observations"])]] := by decide
+  have e2 : guardsOf "points3d" = [[("not-skipped", ["Points3d", "Observations"])],
+      [("else-of", ["Points3d", "Observations"]), ("not-skipped", ["Points3d"])]] := by decide
+  rw [e1, e2]
+  unfold guardHolds
+  simp only [List.any_cons, List.any_nil, List.all_cons, List.all_nil, Bool.and_true, Bool.or_false]
+  generalize skip.contains "Points3d" = a
+  generalize skip.contains "Observations" = b
+  cases a <;> cases b <;> decide
+
 /-- a part that is not skipped and is absent from every input stays absent -/
 theorem absent_everywhere_absent (skip : List String) (inputs : List Input) (attr : String)
     (h : ∀ i ∈ inputs, part i attr = none) : mergedPart skip inputs attr = none := by
